@@ -167,6 +167,107 @@ def complementary(f, g):
     return a[3] == T.mk_not(bb) or T.valid_iff([], a[3], T.mk_not(bb))
 
 
+def loop_frame(ip, rec, exits):
+    """(P, dom, e0, counters, K, sigma, by_test) of a loop record on a path with the given exits, or None"""
+    ld = loop_domain(ip, rec)
+    if ld is None:
+        return None
+    P, dom, e0 = ld
+    counters = {hv: ev for hv, ev in rec['mapping'] if hv[0] == 'var' and T.TYPES.get(hv) in ('usize', 'u32', 'u64', 'i32', 'isize') and is_counter(ip, rec, hv)}
+    K = T.var('k#L%d_%d' % (rec['head'], rec['inst']), 'usize')
+    sigma = {c: (K if c == P else T.mk_add(ev, T.mk_sub(K, e0))) for c, ev in counters.items()}
+    ex = [e for e in exits if e[0] == rec['fn'] and e[1] == rec['head']]
+    fn = ip.crate.fn(rec['fn']) or rec.get('fnobj')
+    if not ex or fn is None:
+        return None
+    chain, callees, sw = fn.loop_test(rec['head'])
+    return P, dom, e0, counters, K, sigma, (sw is not None and ex[-1][2] == sw)
+
+
+def closed_values(ip, rec, exits):
+    """closed terms for the loop-carried objects of an exhausted loop:
+       vector V with  V' = V ++ [t(k)]  on every back edge, V = [] (or any list) on entry      ->  entry ++ map(dom, k, t(k))
+       vector V with  V'[k] = t(k)  (k the position, V of the domain's length on entry)         ->  map(dom, k, t(k))
+       scalar A  with  A' = b(A, k)  on every back edge                                         ->  fold(dom, entry, a, k, b(a, k))
+    Only when the loop was left by its own test; {} otherwise."""
+    fr = loop_frame(ip, rec, exits)
+    if fr is None:
+        return {}
+    P, dom, e0, counters, K, sigma, by_test = fr
+    if not by_test or not rec['backs']:
+        return {}
+    hi = (rec['head'], rec['inst'])
+    out = {}
+    n_dom = T.mk_sub(ip.iter_heads[P].end, e0)
+    # element-wise definitions number the elements from 0 (the convention of the `collect` summary): position = e0 + k
+    sigma_abs = sigma
+    sigma = {c: T.mk_add(ev, K) for c, ev in counters.items()}
+    for V, (entry, loc) in rec.get('vec_heads', {}).items():
+        ts = set()
+        kind = None
+        for bst, cur in rec['backs']:
+            c = cur.get(V)
+            if c is None:
+                kind = 'bad'
+                break
+            if c[0] == 'list' and len(c[1]) == 2 and c[1][0][0] == 'slice' and c[1][0][1] == V and c[1][1][0] == 'one':
+                k2, t = 'push', c[1][1][1]
+            elif c[0] == 'upd*' and c[1] == V and len(c[2]) == 1:
+                (idx, val), = c[2]
+                if not isinstance(idx, tuple) or T.subst(idx, sigma) != K:
+                    kind = 'bad'
+                    break
+                k2, t = 'write', val
+            else:
+                kind = 'bad'
+                break
+            if kind not in (None, k2):
+                kind = 'bad'
+                break
+            kind = k2
+            t = T.subst(t, sigma)
+            if insts_of(t):
+                kind = 'bad'
+                break
+            ts.add(t)
+        if kind in (None, 'bad') or len(ts) != 1:
+            continue
+        body = ts.pop()
+        m = ('map', dom, K, body)
+        T.typed(('len', m), 'usize')
+        if kind == 'push':
+            if entry == ('list', ()):
+                out[V] = (m, n_dom)
+            # a non-empty start is left alone (no concatenation term in the algebra)
+        else:
+            # every slot written exactly once: the vector had the domain's length on entry (index writes keep it)
+            snap = rec['snapshot']
+            if isinstance(entry, tuple) and not insts_of(entry) and ip.entails(snap, T.mk_cmp('eq', T.typed(('len', entry), 'usize'), n_dom)):
+                out[V] = (m, n_dom)
+    for hv, ev in rec['mapping']:
+        if hv in counters or hv[0] != 'var' or hv in out:
+            continue
+        bodies = set()
+        ok = True
+        A2 = T.var('acc#L%d_%d' % hi, T.TYPES.get(hv))
+        for bst, cur in rec['backs']:
+            c = cur.get(hv)
+            if c is None or c == hv:
+                ok = False
+                break
+            b = T.subst(T.subst(c, sigma_abs), {hv: A2})
+            if insts_of(b):
+                ok = False
+                break
+            bodies.add(b)
+        if ok and len(bodies) == 1 and isinstance(ev, tuple) and not insts_of(ev):
+            t = ('fold', dom, ev, A2, K, bodies.pop())
+            if T.TYPES.get(hv):
+                T.TYPES.setdefault(t, T.TYPES.get(hv))
+            out[hv] = (t, None)
+    return out
+
+
 def quant(kind, dom, K, body):
     q = ('quant', kind, dom, K, body)
     T.TYPES.setdefault(q, 'bool')
@@ -189,6 +290,45 @@ def memory_terms(ip, st):
     return tuple(out)
 
 
+def rewrite_state(st, sub):
+    """substitute terms in every abstract value reachable from the frames of st (in place; st is a private clone)"""
+    seen = set()
+
+    def rt(t):
+        return T.subst(t, sub)
+
+    def rv(v):
+        if isinstance(v, tuple):
+            return rt(v)
+        if isinstance(v, X.Tup):
+            return X.Tup([rv(x) for x in v.xs])
+        if isinstance(v, X.Adt):
+            return X.Adt(v.path, v.variant, v.vidx, [rv(x) for x in v.xs], v.is_enum)
+        if isinstance(v, X.Ref):
+            rc(v.cell)
+            return v
+        if isinstance(v, X.Sym):
+            return X.Sym(rt(v.term), v.ty, {k: rv(x) for k, x in v.over.items()}, v.variant, v.wr)
+        if isinstance(v, X.ListV):
+            return X.ListV([tuple(rt(x) if isinstance(x, tuple) else x for x in p) for p in v.parts])
+        if isinstance(v, X.Clo):
+            return X.Clo(v.path, [rv(x) for x in v.upvars])
+        if isinstance(v, X.Uninit):
+            return X.Uninit(rv(v.v))
+        return v
+
+    def rc(cell):
+        if id(cell) in seen:
+            return
+        seen.add(id(cell))
+        cell.v = rv(cell.v)
+    for fr in st.frames:
+        for c in fr.cells:
+            rc(c)
+    for c in list(st.symcells.values()):
+        rc(c)
+
+
 def summarise(ip, o):
     """closed form of one outcome, or the outcome itself when that is not possible"""
     if o.kind != 'ret' or not getattr(ip, 'loop_records', None):
@@ -201,22 +341,57 @@ def summarise(ip, o):
     found = set()
     for f in st.pc:
         found |= insts_of(f)
+    if vt is not None:
+        found |= insts_of(vt)
+    mem = memory_terms(ip, st)
+    for t in mem:
+        found |= insts_of(t)
     if not found:
         return o
-    if vt is not None and insts_of(vt):
-        return o
-    mem = memory_terms(ip, st)
-    if any(insts_of(t) for t in mem):
-        return o
     pc = list(st.pc)
+    s2 = st.clone()
+    value = o.value
+    is_ret_cell = bool(st.frames) and value is st.frames[0].cells[0].v
+    if is_ret_cell:
+        value = s2.frames[0].cells[0].v
+    elif not isinstance(value, tuple) and value is not None:
+        return o
+    done = 0
     for hi in sorted(found, key=lambda x: -x[1]):
         rec = ip.loop_records.get(hi)
         if rec is None:
-            return o
-        pc = summarise_loop(ip, pc, rec, st.loop_exits, st.safety)
-        if pc is None:
-            return o
-    s2 = st.clone()
+            continue
+        try:
+            cv = closed_values(ip, rec, st.loop_exits)
+        except Exception:
+            cv = {}
+        pc2 = pc
+        one = {}
+        if cv:
+            one = {V: t for V, (t, n) in cv.items()}
+            pc2 = [T.subst(f, one) for f in pc2]
+            for V, (t, n) in cv.items():
+                if n is not None:
+                    pc2.append(T.mk_cmp('eq', T.typed(('len', t), 'usize'), n))
+        pc2 = summarise_loop(ip, pc2, rec, st.loop_exits, st.safety)
+        if pc2 is None:
+            continue
+        # commit only if this loop's variables are gone from the value and the memory as well
+        s3 = s2.clone() if one else s2
+        v3 = value
+        if one:
+            rewrite_state(s3, one)
+            v3 = s3.frames[0].cells[0].v if is_ret_cell else (T.subst(value, one) if isinstance(value, tuple) else value)
+        try:
+            vt3 = ip.to_term(s3, v3) if v3 is not None else None
+        except Exception:
+            continue
+        if (vt3 is not None and hi in insts_of(vt3)) or any(hi in insts_of(t) for t in memory_terms(ip, s3)):
+            continue
+        pc, s2, value = pc2, s3, v3
+        done += 1
+    if not done:
+        return o
     s2.pc = []
     s2.pcset = set()
     facts = []
@@ -224,9 +399,13 @@ def summarise(ip, o):
         if isinstance(f, tuple) and f and f[0] == '#sum':
             facts.append(f[1])
             f = f[1]
+        if T.is_bool(f):
+            if f[1]:
+                continue
+            return o
         s2.pc.append(f)
         s2.pcset.add(f)
-    o2 = X.Outcome('ret', s2, value=o.value, info=o.info)
+    o2 = X.Outcome('ret', s2, value=value, info=o.info)
     o2.summarised = facts
     return o2
 
